@@ -46,8 +46,19 @@ def main(argv):
             per_path_timeout=float(payload.get("per_path_timeout", 30)),
             extra_assume=extra,
         )
+    elif mode == "smt":
+        import time, traceback
+
+        t0 = time.time()
+        c0 = time.process_time()
+        try:
+            res = fn(**payload.get("fixed", {}))
+        except Exception as e:
+            res = {"status": "ERROR", "error": type(e).__name__ + ": " + str(e) + "\n" + traceback.format_exc()[-3000:]}
+        res.setdefault("wall_s", round(time.time() - t0, 3))
+        res.setdefault("cpu_s", round(time.process_time() - c0, 3))
     elif mode == "replay":
-        res = chdriver.replay(fn, payload["kwargs"])
+        res = chdriver.replay(spec.get("replay_fn", fn), payload["kwargs"])
     else:
         raise SystemExit("bad mode")
     sys.stdout.write("\nRESULT " + json.dumps(res) + "\n")
